@@ -92,6 +92,23 @@ Proof.
   - exists 0, 3. vm_compute. repeat split; auto; discriminate.
 Qed.
 
+(* the dynamic API: two stored descriptors decoded at once; a bad stored index fails the whole call;
+   unmarshall_all on a message with a bad index drops the message and closes what only it held *)
+Definition h8 : list op := h1 ++ [Push 0%nat [PH 0%nat]; Send 0%nat; Recv].
+Example decode_good :
+  let (s', r) := step (run h8 init) (Decode 1%nat 2%nat) in
+  r = RHandles [1%nat; 2%nat] /\ sn_hnd (snapshot s') = [Some (Some 0); Some (Some 3); Some (Some 4)]
+  /\ table_list s' = table_list (run h8 init).
+Proof. vm_compute. auto. Qed.
+Example decode_bad : step (run h4 init) (Decode 0%nat 1%nat) = (run h4 init, RErr).
+Proof. reflexivity. Qed.
+Example decode_owned_bad :
+  let (s', r) := step (run h4 init) (DecodeOwned 0%nat) in
+  r = RErr /\ closes s' = [1] /\ sn_bods (snapshot s') = [None].
+Proof. vm_compute. auto. Qed.
+Example held_example : held (run h1 init) 1.
+Proof. exists 1%nat. vm_compute. split; [reflexivity|lia]. Qed.
+
 (* the invariant holds on a concrete history (instance of run_inv0) *)
 Example inv_example : inv0 [] (run h5 init).
 Proof. apply run_inv0. Qed.
